@@ -62,6 +62,9 @@ Definition model_agrees (c : case) : bool :=
   && Bool.eqb (r_err r) (o_real_err c).
 
 (* ---- the property on the observed runs ---- *)
+Definition o_real_begin_failed (c : case) : bool :=
+  match o_real_log c, c_orc c with EBegin :: _, d :: _ => d_err d | _, _ => false end.
+
 Definition spec_holds (c : case) : bool :=
   (* no prepare, exec or query in DryRun; nothing at all for ToSQL *)
   forallb is_tx_event (o_dry_log c)
@@ -70,7 +73,9 @@ Definition spec_holds (c : case) : bool :=
   && match c_fin c, first_stmt (o_real_log c) with
      | FBatch, _ => true           (* several statements, none of them "the" main statement *)
      | _, Some (s, v) => String.eqb s (o_dry_sql c) && scalars_eqb v (o_dry_vars c)
-     | _, None => true
+     (* the real run sent nothing (refused, or nothing to do): then the dry run must not have shown,
+        without an error, a statement "that would be sent" *)
+     | _, None => o_dry_err c || String.eqb (o_dry_sql c) "" || o_real_begin_failed c
      end.
 
 Definition check_case (c : case) : N := code_of (model_agrees c) (spec_holds c).
